@@ -27,7 +27,7 @@ def plan(tier):
     base = {"case_time_limit": 240,
             "required_classes": ["criteria:fixed", "criteria:threshold", "criteria:both", "per-bond-limits",
                                  "temp_m_trunc:scalar", "temp_m_trunc:list", "degenerate-spectrum", "rank-below-limit",
-                                 "threshold>=0.5", "sweep:to_right", "sweep:to_left", "ret_s"],
+                                 "threshold>=0.5", "sweep:to_right", "sweep:to_left", "ret_s", "sector:zero-with-signed-labels"],
             "required_counters": {"oracle": 300, "bounds_checked": 200}}
     if tier == "quick":
         base.update({"ncases": 320, "min_nontrivial": 60})
@@ -93,6 +93,10 @@ def run_case(ctx):
     else:
         gm = gen.random_basis_list(rng, nsite=(2, 8), max_dim=20000, min_dim=8,
                                    qn_mode=rng.choice(["none", "one", "two"], p=[0.3, 0.5, 0.2]))
+    signed_zero = None
+    if not degenerate and rng.random() < 0.1:
+        gm = gen.signed_spin_chain(rng, nsite=(4, 9))
+        signed_zero = gen.zero_sector(gm)
     model = states.model_of(gm)
     n = len(gm.basis)
     desc = {"model": gm.describe()}
@@ -102,6 +106,9 @@ def run_case(ctx):
         desc["state"] = {"degenerate": d}
     else:
         qntot = states.pick_sector(rng, gm)
+        if signed_zero is not None:
+            qntot = signed_zero
+            ctx.cls("sector:zero-with-signed-labels")
         mmax = int(rng.choice([1, 2, 3, 4, 6, 8, 12, 16]))
         mps = ctx.lib(states.random_state, ctx, gm, model, qntot, mmax, what="state-constructor", promised=False)
         desc["state"] = {"sector": qntot.tolist(), "mmax": mmax}
